@@ -74,7 +74,10 @@ def check_run(run: WorkerRun, model: Model, res: Result, label: str) -> None:
     sc = run.sc
     conv = sc.get("converter", "basic")
     plans = {j["id"]: j for j in sc["jobs"]}
-    ds = [d for d in deliveries(run) if d["call_t"] is not None or d["end_t"] is not None]
+    horizon = next((e["t"] for e in run.events if e["kind"] == "run_horizon"), None)
+    # executions cut off by the end of the observation window are not judged
+    ds = [d for d in deliveries(run) if (d["call_t"] is not None or d["end_t"] is not None)
+          and not (horizon is not None and not d["calls"] and (d["end_t"] is None or d["end_t"] >= horizon))]
     reqs, meta = [], []
     hb = run.results is not None
     sf = bool(sc.get("store_fail_all", False))
@@ -86,12 +89,14 @@ def check_run(run: WorkerRun, model: Model, res: Result, label: str) -> None:
         reqs.append(sx([A("proc.process"), d["params"], now, pn, hb, sf, outcome_sx(st)]))
         success = st["k"] == "ret"
         reqs.append(sx([A("proc.disposition"), d["params"], success, now, pn]))
+        pre_sx = outcome_sx(st)[1] if st["k"] == "eager" else []
+        reqs.append(sx([A("c16.orderOk"), pre_sx, d["ran"]]))
         meta.append((d, st, j))
     answers = model.ask(reqs)
     res.extra["model_requests"] = res.extra.get("model_requests", 0) + len(answers)
     tainted: set[str] = set()    # ids duplicated by an earlier F8 event (two requeues of one message)
     for i, (d, st, j) in enumerate(meta):
-        trace, disp = answers[2 * i], answers[2 * i + 1]
+        trace, disp, order_ok = answers[3 * i], answers[3 * i + 1], answers[3 * i + 2]
         if d["id"] in tainted:
             res.dist["skipped-after-F8-duplicate"] += 1
             continue
@@ -107,6 +112,13 @@ def check_run(run: WorkerRun, model: Model, res: Result, label: str) -> None:
         res.note(cls, sample={"job": j, "observed_calls": sx(d["calls"]), "model": trace} if len(res.samples) < 4 else None)
         exp_cbs = [int(c[1]) for c in t[4] if str(c[0]) == "cb"]
         corr_bad = _norm(exp) != _norm(obs_n) or exp_cbs != d["callbacks"]
+        if st["k"] == "eager" and t[4]:
+            # order of callback executions and of the result store after an eager response
+            exp_ran = sx(t[4])
+            obs_ran = sx(d["ran"])
+            if _norm(exp_ran) != _norm(obs_ran):
+                corr_bad = True
+                d = dict(d, ran_expected=exp_ran, ran_observed=obs_ran)
         if corr_bad:
             res.bad("corr", "Worker.process model vs observed delivery (broker calls, stores, body entered, callbacks)",
                     case=case, observed={"trace": obs_n, "callbacks": d["callbacks"]}, expected={"trace": exp, "callbacks": exp_cbs})
@@ -118,6 +130,11 @@ def check_run(run: WorkerRun, model: Model, res: Result, label: str) -> None:
             ok = sx(d["calls"][0]) == disp
         if d["after_eager"] and len(d["calls"]) == 1 and st["k"] == "eager":
             ok = False   # body continued after an accepted eager response
+        eager_accepted = st["k"] == "eager" and len(d["calls"]) == 1 and not d["after_eager"] and str(parse_sx(trace)[4]) != "[]" 
+        if st["k"] == "eager" and parse_sx(trace)[4] and order_ok != "true":
+            # callbacks after an eager response: registration order, store at the latest set_*
+            res.bad("impl", "Pred.C16.orderOk: order of callback executions / result store after an eager response", case=case,
+                    observed=sx(d["ran"]), expected="spec order for " + sx(pre_sx))
         if eager_cb_fail and len(d["calls"]) == 2:
             tainted.add(d["id"])
         if not ok:
